@@ -234,7 +234,10 @@ var blockModes = []int{modeECB, modeCBC, modeCFB, modeOFB}
 func TestC10_UidSweep(t *testing.T) {
 	h.MarkExhaustive("uid-sweep")
 	h.Sweep(t, h.P{Name: "uid-sweep"}, func(emit func(uidCase)) {
-		passes := h.Scale(1, 3)
+		passes := h.Scale(2, 8)
+		if quickPurego() {
+			passes = 1
+		}
 		for p := 0; p < passes; p++ {
 			for n := 0; n <= 200; n++ {
 				emit(uidCase{UidLen: n, Hid: int(pickHid(n+p, h.Seed)), MK: sweepMasters[(n+3*p)%len(sweepMasters)], Seed: gen.Mix(h.Seed, 0x0a, uint64(n), uint64(p))})
@@ -324,11 +327,22 @@ func checkUid(c uidCase, r *h.Rec) error {
 // mod 64: the 4-byte counter straddles a block boundary).
 var diagUIDLens = []int{5, 60, 61, 62, 63}
 
+// the thorough tier adds ids of 124..127 bytes (the same residues one block
+// later), the empty id and a block-aligned one, and lengths up to 520
+var diagUIDLensThorough = []int{5, 60, 61, 62, 63, 124, 125, 126, 127, 0, 64}
+
+func diagLens() []int {
+	if h.Thorough() {
+		return diagUIDLensThorough
+	}
+	return diagUIDLens
+}
+
 func diagUID(i int, seed uint64) []byte {
 	if i == 0 {
 		return []byte("Alice")
 	}
-	return mkUID(gen.Mix(seed, 0xd1a6), diagUIDLens[i])
+	return mkUID(gen.Mix(seed, 0xd1a6), diagUIDLensThorough[i])
 }
 
 type lenCase struct {
@@ -351,8 +365,8 @@ func TestC10_LenSweepKDF(t *testing.T) {
 		h.MarkExhaustive("len-sweep-kdf")
 	}
 	h.Sweep(t, h.P{Name: "len-sweep-kdf"}, func(emit func(lenCase)) {
-		for n := 1; n <= 300; n++ {
-			for u := range diagUIDLens {
+		for n := 1; n <= h.Scale(300, 520); n++ {
+			for u := range diagLens() {
 				if quickPurego() && u != 0 && u != 1+n%4 {
 					continue
 				}
@@ -386,7 +400,7 @@ func checkLenKDF(c lenCase, r *h.Rec) error {
 	if _, err := doEncrypt(rd, em, eu, uid, hid, mkMsg(c.Seed, c.Len), modeXOR, false, c.Len); err != nil {
 		return err
 	}
-	if c.Len%5 == c.UidIdx || c.UidIdx == 0 && quickPurego() && c.Len%5 > 1 {
+	if c.Len%5 == c.UidIdx%5 || c.UidIdx == 0 && quickPurego() && c.Len%5 > 1 {
 		r.Label("xor-asn1")
 		rd = gen.NewDetReader(gen.Mix(c.Seed, 0x1e, uint64(c.UidIdx), uint64(c.Len%3)))
 		if _, err := doEncrypt(rd, em, eu, uid, hid, mkMsg(c.Seed, c.Len), modeXOR, true, c.Len); err != nil {
@@ -412,7 +426,7 @@ func TestC10_LenSweepModes(t *testing.T) {
 		h.MarkExhaustive("len-sweep-modes")
 	}
 	h.Sweep(t, h.P{Name: "len-sweep-modes"}, func(emit func(modeLenCase)) {
-		for n := 1; n <= 300; n++ {
+		for n := 1; n <= h.Scale(300, 400); n++ {
 			for _, m := range blockModes {
 				for _, a := range []bool{false, true} {
 					if quickPurego() && !(n <= 34 || n%16 <= 1 || n%16 == 15 || n >= 296) {
@@ -514,9 +528,9 @@ func genLen(t *rapid.T) int {
 // entry points), keys built fresh per case (first-use path of the lazily built
 // pairing base and GT table).
 func TestC10_Mix(t *testing.T) {
-	q, th := 260, 4000
+	q, th := 600, 30000
 	if h.Cfg == "purego" {
-		q, th = 50, 1000
+		q, th = 120, 6000
 	}
 	h.Prop(t, h.P{Name: "mix", Quick: q, Thorough: th}, func(t *rapid.T) mixCase {
 		c := mixCase{
